@@ -12,7 +12,8 @@ package varmq
 // NewWorker$1: plain worker. Exactly one of Successful / Failed is bumped; a panic is contained, counted as failed and offered on the
 // worker's error channel.
 //@ func NewWorker$1
-//@   props C07 C17
+//@   concurrent
+//@   props C07 C17 C07@B1
 //@   inlines utils.WithSafe
 //@   contains_panics
 //@   requires $deref(wf) != nil && $deref(w) != nil && $deref(w).metrics != nil && ChanOK($deref(w).errorChan)
@@ -26,7 +27,8 @@ package varmq
 // NewErrWorker$1: error worker. The handle gets the error iff the function returned one or panicked -- exactly once, its own;
 // Successful / Failed exactly one.
 //@ func NewErrWorker$1
-//@   props C07 C17
+//@   concurrent
+//@   props C07 C17 C07@B1
 //@   inlines utils.WithSafe
 //@   contains_panics
 //@   requires $deref(wf) != nil && $deref(w) != nil && $deref(w).metrics != nil && ChanOK($deref(w).errorChan) && ij != nil
@@ -44,7 +46,8 @@ package varmq
 // NewResultWorker$1: result worker. Exactly one outcome reaches the handle: the result if the function returned (r, nil), else the error
 // (returned or recovered panic).
 //@ func NewResultWorker$1
-//@   props C07 C17
+//@   concurrent
+//@   props C07 C17 C07@B1
 //@   inlines utils.WithSafe
 //@   contains_panics
 //@   requires $deref(wf) != nil && $deref(w) != nil && $deref(w).metrics != nil && ChanOK($deref(w).errorChan) && ij != nil
